@@ -346,7 +346,14 @@ def random_decl(rng, did, nmin=3, nmax=7, p_async=0.45, p_fallible=0.3, construc
         nres = 1
         if constructs and rng.random() < 0.2:
             nres = 2
-        for _ in range(nres):
+        for ri in range(nres):
+            if ri == 1 and rng.random() < 0.35:
+                # the second result is an interface value (returned as such, no Bind); the first result implements it too
+                iname = 'I%d' % icount[0]
+                icount[0] += 1
+                types[iname] = {'form': 'iface', 'bare': True}
+                groups.append([iname])
+                continue
             if constructs and rng.random() < 0.15:
                 # a struct type with 2 fields, to be expanded
                 sname = 'S%d' % scount[0]
@@ -609,7 +616,7 @@ def multi_ret_variants(d):
             continue
         for g in p['provides'][1:]:
             t = g[0]
-            if d['types'][t]['form'] == 'iface' or 'fields' in d['types'][t]:
+            if (d['types'][t]['form'] == 'iface' and not d['types'][t].get('bare')) or 'fields' in d['types'][t]:
                 continue
             v = copy.deepcopy(d)
             v['ret'] = t
